@@ -17,6 +17,9 @@ class IsShadedRect:
     def ensures(c, self, ll, ur, result):
         return c.iff(result, c.forall(ll[0], ur[0] + 1, lambda x: c.forall(ll[1], ur[1] + 1, lambda y: c.shaded(self, x, y))))
 
+    def value(c, self, ll, ur):
+        return c.forall(ll[0], ur[0] + 1, lambda x: c.forall(ll[1], ur[1] + 1, lambda y: c.shaded(self, x, y)))
+
     modifies = ()
 
 
@@ -41,6 +44,10 @@ class IsPointfree:
     def ensures(c, self, ll, ur, result):
         p = self.pattern
         return c.iff(result, c.forall(ll[0], ur[0], lambda i: c.not_(c.and_(c.int(ll[1]) <= p[i], p[i] < c.int(ur[1])))))
+
+    def value(c, self, ll, ur):
+        p = self.pattern
+        return c.forall(ll[0], ur[0], lambda i: c.not_(c.and_(c.int(ll[1]) <= p[i], p[i] < c.int(ur[1]))))
 
     modifies = ()
 
@@ -218,3 +225,96 @@ class AddPoint:
         )
 
     modifies = ()
+
+
+# --------------------------------------------------------------- induced sub-pattern (C06)
+@contract("MeshPatt.sub_mesh_pattern", params={"self": "Mesh", "indices": "Seq"}, returns="Mesh", props=("C06",))
+class SubMeshPattern:
+    """The region bookkeeping of the induced sub-pattern.  The function's locals serve as ghost
+    witnesses: `indices` (sorted), `vertical`, `horizontal` (grid lines of the chosen columns / rows,
+    with sentinels 0 and n+1).  A cell (x, y) of the result is shaded iff the rectangle of ORIGINAL
+    cells [vertical[x], vertical[x+1]-1] x [horizontal[y], horizontal[y+1]-1] is fully shaded and
+    contains no original point strictly inside."""
+
+    def requires(c, self, I):
+        n = c.len(self.pattern)
+        k = c.len(I)
+        return c.and_(
+            c.is_mesh(self),
+            c.forall(0, k, lambda t: c.and_(0 <= I[t], I[t] < n)),
+            c.forall2(0, k, lambda s, t: c.implies(s != t, I[s] != I[t])),
+        )
+
+    def ensures(c, self, I, result):
+        return c.and_(c.len(result.pattern) == c.len(I), c.is_mesh(result))
+
+    modifies = ()
+
+
+def _sub_locals(c, st, result):
+    m = st.self
+    p = m.pattern
+    n = c.len(p)
+    J, vert, hor = st.indices, st.vertical, st.horizontal
+    k = c.len(J)
+    rp = result.pattern
+
+    def full(x, y):
+        return c.forall(vert[x], vert[x + 1], lambda a: c.forall(hor[y], hor[y + 1], lambda b: c.shaded(m, a, b)))
+
+    def free(x, y):
+        return c.forall(vert[x], vert[x + 1] - 1, lambda i: c.not_(c.and_(hor[y] <= p[i], p[i] < hor[y + 1] - 1)))
+
+    return c.and_(
+        # the chosen columns, sorted: the same indices as the argument
+        k == c.len(st.__params__["indices"]),
+        c.forall(0, k, lambda t: c.member(J[t], st.__params__["indices"])),
+        c.forall(0, k, lambda t: c.member(st.__params__["indices"][t], J)),
+        c.forall2(0, k, lambda s_, t: c.implies(s_ < t, J[s_] < J[t])),
+        c.forall(0, k, lambda t: c.and_(0 <= J[t], J[t] < n)),
+        # grid lines of the chosen columns and rows with sentinels
+        c.len(vert) == k + 2, vert[0] == 0, vert[k + 1] == n + 1,
+        c.forall(0, k, lambda t: vert[t + 1] == J[t] + 1),
+        c.len(hor) == k + 2, hor[0] == 0, hor[k + 1] == n + 1,
+        c.forall2(0, k + 2, lambda s_, t: c.implies(s_ < t, hor[s_] < hor[t])),
+        c.forall(0, k, lambda s: c.exists(0, k, lambda t: hor[t + 1] == p[J[s]] + 1)),
+        c.forall(0, k, lambda t: c.exists(0, k, lambda s: hor[t + 1] == p[J[s]] + 1)),
+        # the underlying pattern is the standardisation of the chosen points, left to right
+        c.len(rp) == k,
+        c.forall2(0, k, lambda a, b: c.iff(rp[a] < rp[b], p[J[a]] < p[J[b]])),
+        # the shading
+        c.forall_cell(lambda x, y: c.iff(
+            c.shaded(result, x, y),
+            c.and_(0 <= x, x <= k, 0 <= y, y <= k, c.implies(c.and_(0 <= x, x <= k, 0 <= y, y <= k), lambda: c.and_(full(x, y), free(x, y)))),
+        )),
+    )
+
+
+def _sub_after(c, st, idx):
+    """Intermediate lemmas (cut points) that keep each solver query small."""
+    p = st.self.pattern
+    n = c.len(p)
+    if idx == 0:  # indices = sorted(indices): strictly increasing, in range
+        J = st.indices
+        k = c.len(J)
+        return c.and_(
+            k == c.len(st.__params__["indices"]),
+            c.forall(0, k, lambda t: c.and_(0 <= J[t], J[t] < n)),
+            c.forall2(0, k, lambda s_, t: c.implies(s_ < t, J[s_] < J[t])),  # pairwise form (no induction needed later)
+        )
+    if idx == 5:  # vertical complete
+        J, vert = st.indices, st.vertical
+        k = c.len(J)
+        return c.and_(c.len(vert) == k + 2, vert[0] == 0, vert[k + 1] == n + 1, c.forall(0, k, lambda t: vert[t + 1] == J[t] + 1),
+                      c.forall2(0, k + 2, lambda s_, t: c.implies(s_ < t, vert[s_] < vert[t])))
+    if idx == 8:  # horizontal complete
+        J, hor = st.indices, st.horizontal
+        k = c.len(J)
+        return c.and_(c.len(hor) == k + 2, hor[0] == 0, hor[k + 1] == n + 1,
+                      c.forall(1, k + 1, lambda t: c.and_(1 <= hor[t], hor[t] <= n)),
+                      c.forall2(0, k + 2, lambda s_, t: c.implies(s_ < t, hor[s_] < hor[t])))
+    return None
+
+
+SubMeshPattern.ensures_locals = staticmethod(_sub_locals)
+SubMeshPattern.after_stmt = staticmethod(_sub_after)
